@@ -526,7 +526,8 @@ Fixpoint powmod_pos (W pu U : poly) (p : positive) : poly :=
   | xO p' => powmod_pos W (mod_ (sqr kthr sthr pu) U) U p'
   | xI p' => powmod_pos (modin (mulin kthr W pu) U) (mod_ (sqr kthr sthr pu) U) U p'
   end.
-Definition powmod (P : poly) (n : N) (U : poly) : poly :=
+Definition powmod (P : poly) (n : N) (U0 : poly) : poly :=
+  let U := setdegree U0 in                  (* mod(puiss,P,U) strips P and U in place before the loop *)
   match n with
   | N0 => setdegree (assign [I_])
   | Npos p => setdegree (powmod_pos (assign [I_]) (mod_ P U) U p)
